@@ -1,8 +1,10 @@
 """C14 — every HTTP request to the broker gets a well-formed response; legacy == versioned."""
 import json
 import os
+import re
+import threading
 import vlib
-from checks import brokerlib
+from checks import brokerlib, c14live
 
 CID = "C14"
 FP = brokerlib.DEFAULT_FP
@@ -12,11 +14,16 @@ def hx(b):
     return "x" + b.hex()
 
 
+class Raw(bytes):
+    """a raw request that remembers what it was built from (for the model's request record)"""
+    meta = None
+
+
 def http_req(method, path, body=b"", headers=None, chunked=False, version="1.1"):
-    h = {"Host": "broker.example"}
-    h.update(headers or {})
+    hl = [("Host", "broker.example")]
+    hl += list(headers.items()) if isinstance(headers, dict) else list(headers or [])
     if chunked:
-        h["Transfer-Encoding"] = "chunked"
+        hl.append(("Transfer-Encoding", "chunked"))
         payload = b""
         i = 0
         while i < len(body):
@@ -26,12 +33,83 @@ def http_req(method, path, body=b"", headers=None, chunked=False, version="1.1")
         payload += b"0\r\n\r\n"
     else:
         if body or method in ("POST", "PUT"):
-            h["Content-Length"] = str(len(body))
+            hl.append(("Content-Length", str(len(body))))
         payload = body
     head = ("%s %s HTTP/%s\r\n" % (method, path, version)).encode()
-    for k, v in h.items():
-        head += k.encode() + b": " + v + b"\r\n" if isinstance(v, bytes) else ("%s: %s\r\n" % (k, v)).encode()
-    return head + b"\r\n" + payload
+    for k, v in hl:
+        head += (k if isinstance(k, bytes) else k.encode()) + b":" + (v if isinstance(v, bytes) else v.encode()) + b"\r\n"
+    r = Raw(head + b"\r\n" + payload)
+    r.meta = dict(method=method, path=path, hdrs=[((k if isinstance(k, bytes) else k.encode()), (v if isinstance(v, bytes) else v.encode())) for k, v in hl], body=body)
+    return r
+
+
+TOKEN = set(b"!#$%&'*+-.^_`|~0123456789abcdefghijklmnopqrstuvwxyzABCDEFGHIJKLMNOPQRSTUVWXYZ")
+
+
+def py_canon(k):
+    """textproto.CanonicalMIMEHeaderKey, independently"""
+    if any(c not in TOKEN for c in k):
+        return k
+    out, upper = bytearray(), True
+    for c in k:
+        ch = bytes([c])
+        ch = ch.upper() if upper else ch.lower()
+        out += ch
+        upper = ch == b"-"
+    return bytes(out)
+
+
+def py_header_get(hdrs, key):
+    for k, v in hdrs:
+        if py_canon(k) == py_canon(key):
+            return v.strip(b" \t")
+    return b""
+
+
+def clean_path(p):
+    """paths the model's route function is for: what ServeMux neither redirects nor unescapes"""
+    if not p.startswith("/") or "%" in p or "#" in p or " " in p:
+        return False
+    segs = p[1:].split("/")
+    return all(sg not in ("", ".", "..") for sg in segs[:-1]) and segs[-1] not in (".", "..")
+
+
+def payload_tok(b):
+    if len(b) > 64:
+        a = b[0]
+        if b == bytes((a + i) & 255 for i in range(len(b))):
+            return "g%d.%d" % (len(b), a)
+    return hx(b)
+
+
+def gbytes(n, a):
+    return bytes((a + i) & 255 for i in range(n))
+
+
+ERRRESP = b'{"error":"cannot decode URL path"}'
+METRICS_CONTENT = b"snowflake-stats-end 2026-01-01 00:00:00 (86400 s)\nsnowflake-ips \nsnowflake-idle-count 0\n"
+KNOWN_TYPES = [b"standalone", b"badge", b"webext", b"iptproxy"]
+
+
+def kv_tok(pairs):
+    return ",".join("%s:%s" % (hx(k), hx(v)) for k, v in pairs) or "-"
+
+
+def serve_line(via, method, path, hdrs, body, ipc="other", resp="x", dec="none", snow=(), metrics=METRICS_CONTENT):
+    return "brokerhttp serve %s %s %s %s %s %s %s %s %s %s %s x50" % (
+        via, hx(method.encode()), hx(path.encode("latin1")), kv_tok(hdrs), payload_tok(body), ipc, resp, dec, hx(ERRRESP), kv_tok(snow),
+        "n" if metrics is None else hx(metrics))
+
+
+def norm_debug(body):
+    """the per-type lines of /debug come out of a Go map iteration: put them in the model's order"""
+    lines = body.split(b"\n")
+    head, types, rest = lines[:1], [], []
+    for l in lines[1:]:
+        (types if (l.startswith(b"\t") and l.endswith(b"") and b" proxies: " in l and not l.startswith(b"\tunknown proxies")) else rest).append(l)
+    order = {t: i for i, t in enumerate(KNOWN_TYPES)}
+    types.sort(key=lambda l: order.get(l[1:].split(b" ")[0], 99))
+    return b"\n".join(head + types + rest)
 
 
 def client_body(offer, nat=None, fp=None, version="1.0"):
@@ -48,7 +126,14 @@ def gen(ctx):
     cases = []   # (kind, line, info)
 
     def add(kind, raw, twin="none", twinbody=b"", nat=b"", info=None):
-        cases.append((kind, "brokerhttp req %s %s %s %s" % (hx(raw), twin, hx(twinbody), hx(nat)), info or {}))
+        info = dict(info or {})
+        m = getattr(raw, "meta", None)
+        if m is not None and clean_path(m["path"].split("?")[0]) and m["method"] != "CONNECT":
+            info["rq"] = m
+        cases.append((kind, "brokerhttp req %s %s %s %s" % (hx(raw), twin, hx(twinbody), hx(nat)), info))
+
+    def other(kind, line, info):
+        cases.append((kind, "brokerhttp " + line, info))
 
     nat_values = [None, "", "unknown", "restricted", "unrestricted", "bogus", "Restricted", "x" * 300, "unrestricted "]
     # legacy client requests and their versioned twins (empty broker: no proxies / errors are immediate)
@@ -58,6 +143,22 @@ def gen(ctx):
             twin = client_body(offer, nat=("" if nat is None else nat.strip(" \t")))  # net/http trims optional whitespace around field values
             add("client-legacy", http_req("POST", "/client", offer.encode(), hdr), "client", twin, info=dict(ep="client", legacy=1))
             add("client-versioned-twin", http_req("POST", "/client", twin), "client", twin, info=dict(ep="client", legacy=0))
+    # the NAT type header under every spelling / duplication / white space the server accepts
+    spellings = ["Snowflake-NAT-Type", "Snowflake-Nat-Type", "snowflake-nat-type", "SNOWFLAKE-NAT-TYPE", "sNOWFLAKE-nAT-tYPE", "Snowflake_NAT_Type",
+                 "Snowflake-NAT-Typ", "Snowflake-NAT-Types", "X-Snowflake-NAT-Type", "Snowflake-NAT--Type"]
+    for sp in spellings:
+        for val in ["restricted", "bogus", "", " unrestricted\t", "\tunknown"]:
+            hdr = [(sp, val)]
+            offer = '{"type":"offer","sdp":"h"}'
+            natv = py_header_get([(k.encode(), v.encode()) for k, v in hdr], b"Snowflake-NAT-Type").decode()
+            twin = client_body(offer, nat=natv)
+            add("nat-header-spelling", http_req("POST", "/client", offer.encode(), hdr), "client", twin, info=dict(ep="client", legacy=1))
+    for hdr in [[("Snowflake-NAT-Type", "bogus"), ("Snowflake-NAT-Type", "restricted")], [("snowflake-nat-type", "restricted"), ("Snowflake-NAT-Type", "bogus")],
+                [("Snowflake-NAT-Type", ""), ("Snowflake-NAT-Type", "bogus")], [("X-Other", "1"), ("SNOWFLAKE-NAT-TYPE", " bogus "), ("Snowflake-Nat-Type", "unknown")],
+                [("Snowflake-NAT-Type", "restricted,unrestricted")], [("Snowflake-NAT-Type", "un known")]]:
+        offer = '{"type":"offer","sdp":"d"}'
+        natv = py_header_get([(k.encode(), v.encode()) for k, v in hdr], b"Snowflake-NAT-Type").decode()
+        add("nat-header-duplicates", http_req("POST", "/client", offer.encode(), hdr), "client", client_body(offer, nat=natv), info=dict(ep="client", legacy=1))
     # versioned client requests: decode errors, fingerprints
     bodies = [client_body("o"), client_body("o", nat="restricted"), client_body("o", fp=FP), client_body("o", fp="C" * 40),
               client_body("o", fp="zz"), client_body("o", fp="AB" * 19), client_body("", nat="unknown"), client_body("o", version="2.0"),
@@ -93,13 +194,14 @@ def gen(ctx):
     # body sizes around the 100000 byte limit, all POST endpoints
     for ep, twin in [("/client", "client"), ("/proxy", "proxy"), ("/answer", "answer")]:
         for n in [99999, 100000, 100001, 250000] + ([1000000] if ctx.tier == "thorough" else []):
-            b = b"1.0\n" + b"z" * (n - 4)
+            b = gbytes(n, 49)
             add("size-limit", http_req("POST", ep, b), twin if n <= 100000 else "none", b if n <= 100000 else b"",
                 info=dict(ep=twin, toolarge=(n > 100000)))
             add("size-limit-chunked", http_req("POST", ep, b, chunked=True), twin if n <= 100000 else "none", b if n <= 100000 else b"",
                 info=dict(ep=twin, toolarge=(n > 100000)))
-        legacy_big = b"{" + b"q" * 100000
+        legacy_big = gbytes(100001, 123)
         add("size-limit-legacy", http_req("POST", "/client", legacy_big), "none", info=dict(ep="client", toolarge=True))
+        add("size-limit-options", http_req("OPTIONS", ep, gbytes(100001, 49)), "none", info=dict(options=True))
     # methods x endpoints (monitors only) incl. CORS preflight
     for ep in ["/proxy", "/client", "/answer", "/amp/client/0/abc", "/debug", "/metrics", "/prometheus", "/robots.txt", "/", "/nosuch", "/amp/client", "/client/extra", "/proxy?x=1"]:
         for m in ["GET", "POST", "OPTIONS", "HEAD", "PUT", "DELETE", "PATCH", "FOO"]:
@@ -120,15 +222,360 @@ def gen(ctx):
             add("mutated-legacy", http_req("POST", ep, b, {"Snowflake-NAT-Type": rng.choice(["", "unknown", "zz"])}), "none", info=dict(ep="client"))
         else:
             add("mutated", http_req("POST", ep, b), twin, b, info=dict(ep=twin, legacy=0))
+    gen_refined(ctx, add, other)
     return cases
+
+
+def gen_refined(ctx, add, other):
+    """cases for the refined model: preflights with bodies, the AMP handler on paths the mux does not let through, /metrics on other
+    files, /debug on brokers with registered proxies, header lookup, request histories"""
+    rng = ctx.rng
+    thorough = ctx.tier == "thorough"
+    import base64
+    b64 = lambda b: base64.urlsafe_b64encode(b).decode().rstrip("=")
+    # OPTIONS on every route, with and without bodies, valid and not
+    for ep in ["/proxy", "/client", "/answer", "/amp/client/0/" + b64(client_body("o")), "/amp/client/!", "/debug", "/metrics", "/prometheus", "/robots.txt", "/nosuch", "/amp/client"]:
+        for body in [b"", b"{}", client_body("o"), b"\xff" * 40]:
+            add("options-sweep", http_req("OPTIONS", ep, body, [("Origin", "https://snowflake.torproject.org"), ("Access-Control-Request-Method", "POST")]), info=dict(options=True))
+        add("options-lowercase", http_req("options", ep, b""), info={})
+        add("head-sweep", http_req("HEAD", ep, b""), info={})
+    # the AMP handler called directly with URL paths outside its route (the mux never lets these through)
+    poll = client_body("o")
+    for path in ["", "/", "/amp/client", "/amp/clientx/0/" + b64(poll), "/AMP/CLIENT/0/" + b64(poll), "amp/client/0/" + b64(poll), "/x/amp/client/0/" + b64(poll),
+                 "/client", "/amp/client\x00/0/x", "/amp/", "/amp/client/", "/amp/client/0/" + b64(poll), "/amp/client/0//" + b64(poll), "/amp/client//0/" + b64(poll),
+                 "/amp/client/0/!", "/amp/client/1/" + b64(poll), "/amp/client/0abc/x/y/" + b64(poll)]:
+        for method in ["GET", "OPTIONS", "POST"]:
+            ok = path.startswith("/amp/client/")
+            dec = None
+            if ok:
+                from checks import c11
+                dec = c11.py_decode_path(path[len("/amp/client/"):].encode("latin1"))
+            other("amp-direct", "direct amp %s %s x n %s %s" % (hx(method.encode()), hx(path.encode("latin1")), "client" if dec is not None else "none", hx(dec or b"")),
+                  dict(op="direct", via="amp", method=method, path=path, body=b"", metrics=METRICS_CONTENT, prefix_ok=ok))
+    # /metrics on no file, an unreadable name, an empty file, contents of several sizes
+    for content in [None, b"", b"x", METRICS_CONTENT, b"\x00\xff" * 50, gbytes(70000, 65)] + ([gbytes(1000000, 65)] if thorough else []):
+        for method in ["GET", "OPTIONS", "POST"]:
+            other("metrics-direct", "direct metrics %s %s x %s none x" % (hx(method.encode()), hx(b"/metrics"), "n" if content is None else payload_tok(content)),
+                  dict(op="direct", via="metrics", method=method, path="/metrics", body=b"", metrics=content))
+    # /debug as a function of the registered proxies
+    types = [b"standalone", b"badge", b"webext", b"iptproxy", b"unknown", b"strange", b"", b"Standalone"]
+    nats = [b"restricted", b"unrestricted", b"unknown", b"", b"bogus"]
+    views = [[], [(b"standalone", b"restricted")], [(t, n) for t in types for n in nats]]
+    for _ in range(40 if not thorough else 400):
+        views.append([(rng.choice(types), rng.choice(nats)) for _ in range(rng.choice([1, 2, 3, 5, 9, 10, 11, 40, 120]))])
+    for v in views:
+        other("debug-view", "debugview " + kv_tok(v), dict(op="debugview", view=v))
+    # Header.Get under spellings and duplicates
+    for _ in range(60 if not thorough else 600):
+        names = [b"Snowflake-NAT-Type", b"snowflake-nat-type", b"SNOWFLAKE-NAT-TYPE", b"Snowflake-Nat-Type", b"snowflake_nat_type", b"X-A", b"a", b"A-b-C", b"a--b", b"-a", b"A1-b2"]
+        hd = [(rng.choice(names), rng.choice([b"v1", b" v2", b"v3 \t", b"", b"\t", b"a b", b"restricted"])) for _ in range(rng.randrange(0, 5))]
+        other("header-get", "hdrget %s %s" % (kv_tok(hd), hx(rng.choice(names))), dict(op="hdrget"))
+    # histories: the same good requests with and without malformed ones in between, on a fresh broker each
+    for k in range(12 if not thorough else 120):
+        gen_history(ctx, other, k)
+
+
+def gen_history(ctx, other, k):
+    rng = ctx.rng
+    import base64
+    b64 = lambda b: base64.urlsafe_b64encode(b).decode().rstrip("=")
+    view = []          # (sid, ptype as stored, nat as stored), in registration order
+    events = []        # dict(ev=token, cls=good|probe|noipc|rejected, expect=..., rq=meta)
+    nsid = [0]
+
+    def reg():
+        nsid[0] += 1
+        sid = "h%d-%d" % (k, nsid[0])
+        ptype = rng.choice(["standalone", "badge", "webext", "iptproxy", "strange", ""])
+        nat = rng.choice(["restricted", "unrestricted", "unknown", ""])
+        view.append((sid, (ptype if ptype.encode() in KNOWN_TYPES else "unknown"), nat or "unknown"))
+        events.append(dict(ev="P:%s:%s:%s" % (hx(sid.encode()), hx(ptype.encode()), hx(nat.encode())), cls="good", view=list(view)))
+
+    def rq(cls, raw, **kw):
+        events.append(dict(ev="R:" + raw.hex(), cls=cls, rq=raw.meta, view=list(view), **kw))
+
+    def good_client():
+        nat = rng.choice(["unknown", "restricted", "unrestricted"])
+        pool = [v for v in view if (v[2] != "unrestricted") == (nat == "unrestricted")]
+        offer = "offer-%d-%d" % (k, len(events))
+        mode = rng.choice(["v", "v", "l", "a"])
+        if mode == "v":
+            raw = http_req("POST", "/client", client_body(offer, nat=nat))
+        elif mode == "l":
+            offer = "{" + offer + "}"
+            raw = http_req("POST", "/client", offer.encode(), [("snowflake-nat-type", nat)])
+        else:
+            raw = http_req("GET", "/amp/client/0" + rng.choice(["", "AAAA", "x-_"]) + "/" + b64(client_body(offer, nat=nat)))
+        if len(pool) == 1:
+            view.remove(pool[0])
+            rq("good", raw, expect=("answer", mode, "ANS:" + offer))
+        elif len(pool) == 0:
+            rq("good", raw, expect=("noproxies", mode, None))
+        # (several eligible proxies: which one is taken is the matching order, C02's matter - not generated here)
+
+    def probe():
+        rq("probe", http_req("GET", rng.choice(["/debug", "/debug", "/debug", "/metrics", "/robots.txt"])))
+
+    def noipc():
+        c = rng.randrange(9)
+        raw = [lambda: http_req("OPTIONS", rng.choice(["/proxy", "/client", "/answer", "/amp/client/0/QQ", "/debug"]), rng.choice([b"", client_body("o")])),
+               lambda: http_req("POST", rng.choice(["/proxy", "/client", "/answer"]), gbytes(100001 + rng.randrange(3), rng.choice([49, 123]))),
+               lambda: http_req("GET", "/amp/client/" + rng.choice(["", "1/QQ", "0", "0/!", "0AAAA/A", "00"])),
+               lambda: http_req(rng.choice(["GET", "POST", "DELETE"]), rng.choice(["/", "/nosuch", "/client/x", "/proxy/", "/amp"]), b""),
+               lambda: http_req("HEAD", rng.choice(["/debug", "/robots.txt", "/nosuch"])),
+               lambda: http_req("GET", "/prometheus"),
+               lambda: http_req("POST", "/robots.txt", b"x=1"),
+               lambda: http_req("GET", "/amp/client"),
+               lambda: http_req("FOO", "/debug")][c]()
+        rq("noipc", raw)
+
+    def rejected():
+        raw = rng.choice([lambda: http_req("POST", "/proxy", rng.choice([b"", b"notjson", b'{"Sid":"","Version":"1.0"}', b'{"Sid":"s","Version":"9.0"}', b'{"Sid":"s","Version":"1.0","NAT":"bogus"}'])),
+                          lambda: http_req("POST", "/answer", rng.choice([b"", b"{}", b'{"Version":"1.0","Sid":"","Answer":"a"}', b"\xff"])),
+                          lambda: http_req("POST", "/client", rng.choice([b"", b"1.0", b"2.0\n{}", b"1.0\n{}", b"\x00", client_body("o", nat="bogus"), client_body("o", fp="zz")])),
+                          lambda: http_req("POST", "/client", b"{legacy}", [("Snowflake-NAT-Type", "bogus")]),
+                          lambda: http_req("GET", "/amp/client/0/" + b64(rng.choice([b"", b"junk", b"1.0\n{}"])))])()
+        rq("rejected", raw)
+
+    n = rng.choice([6, 10, 16])
+    for _ in range(n):
+        r = rng.random()
+        if r < 0.22:
+            reg()
+        elif r < 0.42:
+            good_client()
+        elif r < 0.6:
+            probe()
+        elif r < 0.85:
+            noipc()
+        else:
+            rejected()
+        if rng.random() < 0.5:
+            probe()
+    events.append(dict(ev="R:" + http_req("GET", "/debug").hex(), cls="probe", rq=http_req("GET", "/debug").meta, view=list(view)))
+    full = events
+    no_noipc = [e for e in events if e["cls"] != "noipc"]
+    no_bad = [e for e in events if e["cls"] not in ("noipc", "rejected")]
+    for variant, evs in (("full", full), ("without-noipc", no_noipc), ("without-malformed", no_bad)):
+        other("history-" + variant, "seq " + ";".join(e["ev"] for e in evs), dict(op="seq", hist=k, variant=variant, events=evs))
+
+
+PROM_SAMPLE = re.compile(rb"^[a-zA-Z_:][a-zA-Z0-9_:]*(\{.*\})? \S+( -?\d+)?$")
+
+
+def prom_exposition(body):
+    """text exposition format (possibly of an empty registry; the driver cuts long bodies: the last line may be partial)"""
+    lines = body.split(b"\n")
+    if len(body) >= 4096:
+        lines = lines[:-1]
+    return all(l == b"" or l.startswith(b"# HELP ") or l.startswith(b"# TYPE ") or PROM_SAMPLE.match(l) for l in lines)
+
+
+def unhexb(tok):
+    return bytes.fromhex(tok[1:]) if tok.startswith("x") else None
+
+
+def eval_refined(ctx, slines, sinfo):
+    if not slines:
+        return []
+    mout = vlib.run_model(slines)
+    ndis = 0
+    for (kind, line, o, info), ml, mo in zip(sinfo, slines, mout):
+        op = info["op"]
+        rep = dict(label="http-refined", kind=kind, case=line[:6000], impl=o[:1500], model=mo[:800], model_case=ml[:3000])
+        if mo == "!badcase":
+            raise RuntimeError("model rejected case line: " + ml[:300])
+        bad = None
+        key = None
+        if mo == "panic":
+            bad = "the model of the repaired handlers panics on this request"
+        elif op == "debugview":
+            got = unhexb(o.split(" srv=")[0])
+            if got is None or norm_debug(got) != unhexb(mo):
+                bad = "/debug body is not the tally of the registered proxies: impl=%r model=%r" % (got, unhexb(mo))
+                key = "debug-body-not-state"
+        elif op == "hdrget":
+            if o.split(" srv=")[0] != mo:
+                bad = "Header.Get model differs: impl=%s model=%s" % (o[:80], mo[:80])
+        else:
+            md = brokerlib.parse_obs(mo)
+            if op == "seqreq":
+                f = o[2:].split(",")
+                d = dict(status=f[0], cors=f[1], body=f[2])
+            else:
+                d = brokerlib.parse_obs(o)
+            m = info.get("rq") or dict(method=info.get("method"), path=info.get("path"))
+            path = m["path"].split("?")[0]
+            options = m["method"] == "OPTIONS"
+            predictable = not (op == "req" and md.get("ipc") == "1" and not info.get("have_ipc"))
+            if op == "req" and d.get("nat", "!") != "!" and d.get("nat") != md.get("nat"):
+                bad, key = "Snowflake-NAT-Type lookup: net/http gives %s, the model %s" % (d.get("nat"), md.get("nat")), "legacy-not-equivalent"
+            elif predictable:
+                gb, mb = unhexb(d.get("body", "x")), unhexb(md.get("body", "x"))
+                if path == "/debug" and d.get("status") == "200" and m["method"] not in ("OPTIONS", "HEAD"):
+                    gb = norm_debug(gb)
+                if path == "/prometheus":
+                    if d.get("status") == "200" and m["method"] != "HEAD" and not prom_exposition(gb):
+                        bad, key = "/prometheus body is not a metrics exposition: %r" % gb[:120], "no-wellformed-response"
+                    gb = mb = b""
+                if md.get("status") == "301":
+                    gb = mb = b""        # the mux's redirect page is net/http's
+                if d.get("status") != md.get("status"):
+                    bad = "status %s, model %s" % (d.get("status"), md.get("status"))
+                    if op == "direct" and info.get("via") == "amp" and not info.get("prefix_ok") and not options:
+                        key = "amp-wrong-prefix-served"
+                    elif options:
+                        key = "preflight-not-empty-200"
+                    elif info.get("legacy"):
+                        key = "legacy-not-equivalent"
+                elif d.get("cors") != md.get("cors"):
+                    bad = "CORS headers %s, model %s" % (d.get("cors"), md.get("cors"))
+                elif gb[:4096] != mb[:4096]:
+                    bad = "body %r, model %r" % (gb[:120], mb[:120])
+                    if options:
+                        key = "preflight-not-empty-200"
+        if bad:
+            if key:
+                ctx.violation(key, "%s [%s]" % (bad, kind), rep)
+            else:
+                ndis += 1
+                if ndis <= 5:
+                    ctx.not_shown("correspondence http-refined: model and implementation disagree on %s `%s`: %s" % (kind, ml[:300], bad[:300]))
+    sample = [(l, m) for l, m in zip(slines, mout) if len(l) < 500]
+    ctx.rng.shuffle(sample)
+    ctx.extra["refined_predictions"] = len(slines)
+    return sample[:20]
+
+
+def eval_histories(ctx, hist):
+    """the clause: a request cannot mishandle later ones. Responses of the kept requests must be the same with and without the
+    dropped ones in between (theorem C14_history_unaffected for the requests that reach no IPC call; observed for the rejected ones)"""
+    for k, variants in sorted(hist.items()):
+        full = variants.get("full")
+        if not full:
+            continue
+        evs, res, line = full
+        rep0 = dict(label="http-history", case=line[:20000])
+        for e, r in zip(evs, res):
+            if e["ev"].startswith("P:") and r != "P=ok":
+                ctx.not_shown("history %d: a proxy poll was not registered within 10 s" % k)
+            if r == "R=noresponse":
+                ctx.violation("no-wellformed-response", "history %d: a request got no complete response [%s %s]" % (k, e["rq"]["method"], e["rq"]["path"]), rep0)
+            exp = e.get("expect")
+            if exp and r.startswith("R=") and r != "R=noresponse":
+                st, _, body = r[2:].split(",")
+                body = unhexb(body)
+                what, mode, ans = exp
+                ok = True
+                if what == "answer":
+                    ok = st == "200" and ans.encode() in body.replace(b"\\", b"")
+                elif mode == "l":
+                    ok = st == "503"
+                else:
+                    ok = st == "200" and b"no snowflake proxies currently available" in body
+                if not ok:
+                    ctx.violation("history-response-mismatch", "history %d: client poll (%s) expected %s, got %s %r" % (k, mode, what, st, body[:100]), rep0)
+        base = {id(e): r for e, r in zip(evs, res)}
+        for variant in ("without-noipc", "without-malformed"):
+            if variant not in variants:
+                continue
+            evs2, res2, line2 = variants[variant]
+            for e, r in zip(evs2, res2):
+                want = base[id(e)]
+                if e["ev"].startswith("R:"):
+                    m = e["rq"]
+                    if m["path"] == "/debug" and r.startswith("R=200") and want.startswith("R=200"):
+                        r = norm_debug(unhexb(r.split(",")[2])).hex()
+                        want = norm_debug(unhexb(want.split(",")[2])).hex()
+                if r != want:
+                    show = lambda t: (bytes.fromhex(t).decode("latin1") if re.fullmatch(r"[0-9a-f]*", t) and len(t) % 2 == 0 else t)
+                    want, r = repr(show(want))[:200], repr(show(r))[:200]
+                    ctx.violation("malformed-request-affects-later",
+                                  "history %d: the response to %s differs when the %s requests before it are left out: with them %s, without %s" % (
+                                      k, e["ev"][:60] if e["ev"].startswith("P:") else "%s %s" % (e["rq"]["method"], e["rq"]["path"]),
+                                      "IPC-free" if variant == "without-noipc" else "malformed", want[:200], r[:200]),
+                                  dict(label="http-history", case=line[:20000], case_without=line2[:20000]))
+                    break
+
+
+def start_live(ctx, test_exe):
+    """the broker binary over TCP and the concurrent soak, next to the rest of the check (they mostly wait)"""
+    box = dict(viol=[], notshown=[], stats={})
+
+    def work():
+        try:
+            bin_exe = vlib.go_build("./broker", name="broker")
+        except vlib.GoBuildError as e:
+            box["notshown"].append("live: `go build ./broker` failed: " + str(e)[-800:])
+            return
+        jobs = [lambda: c14live.run_binary(bin_exe, os.path.join(vlib.GOB, "c14live-%d" % os.getpid())),
+                lambda: c14live.run_soak(test_exe, os.path.join(vlib.GOB, "c14soak-%d" % os.getpid()), 3000 if ctx.tier == "quick" else 8000)]
+        if ctx.tier == "thorough":
+            jobs += [lambda: c14live.run_soak(test_exe, os.path.join(vlib.GOB, "c14soak-%d-%d" % (os.getpid(), k)), 8000) for k in range(3)]
+        ths = []
+        res = [None] * len(jobs)
+
+        def one(k):
+            try:
+                res[k] = jobs[k]()
+            except Exception as e:   # machinery trouble is reported, never swallowed
+                res[k] = ([], ["live: machinery error %r" % (e,)], {})
+        for k in range(len(jobs)):
+            t = threading.Thread(target=one, args=(k,), daemon=True)
+            t.start()
+            ths.append(t)
+            if k >= 1:
+                t.join()            # soaks one after the other; the binary scenario (mostly waiting) runs beside them
+        for t in ths:
+            t.join()
+        for r in res:
+            v, n, st = r
+            box["viol"] += v
+            box["notshown"] += n
+            for k_, v_ in st.items():
+                box["stats"][k_] = box["stats"].get(k_, 0) + v_ if k_.startswith("soak_") else v_
+    th = threading.Thread(target=work, daemon=True)
+    th.start()
+    return th, box
+
+
+def finish_live(ctx, th, box):
+    th.join(400)
+    if th.is_alive():
+        ctx.not_shown("live: the broker binary / soak jobs did not finish within 400 s")
+        return
+    for key, what, rep in box["viol"]:
+        ctx.violation(key, what, rep)
+        ctx.count("live " + key + " " + what[:80], kind="live")
+    for n in box["notshown"]:
+        ctx.not_shown(n)
+    st = box["stats"]
+    for name in ("idle-poll", "client-v-silent", "client-l-silent", "client-a-silent"):
+        ctx.count("live-binary " + name, kind="live-binary-slow-response")
+    ctx.count("live-binary immediate x%d" % st.get("live_requests", 0), kind="live-binary")
+    ctx.count("soak matches=%s debug=%s" % (st.get("soak_matches"), st.get("soak_debug")), kind="soak")
+    ctx.extra["live"] = st
 
 
 def run(ctx):
     exe = vlib.go_test_build("./broker", name="broker.test")
-    env = dict(os.environ, VERIF_DRIVER="brokerhttp")
-    ctx.assumptions += ["model = coq/Model/BrokerHttp.v (handlers as total functions of read result and IPC outcome); IPC outcome per case observed by a direct IPC call on the versioned twin body",
+    live_th, live_box = start_live(ctx, exe)
+    try:
+        run_rest(ctx, exe)
+    finally:
+        finish_live(ctx, live_th, live_box)
+
+
+def run_rest(ctx, exe):
+    os.makedirs(vlib.TMP, exist_ok=True)
+    env = dict(os.environ, VERIF_DRIVER="brokerhttp", VERIF_TMP_DIR=vlib.TMP)
+    ctx.assumptions += ["model = coq/Model/BrokerHttp.v (handlers as total functions of read result and IPC outcome; refined: request record, response writer, partial operations, routes, "
+                        "/debug /metrics /prometheus /robots.txt, broker state through IPC only); IPC outcome per case observed by a direct IPC call on the versioned twin body",
+                        "sequential model: overlapping requests (soak, child process) and the http.Server of main() (broker binary over TCP) are observed, not proved; "
+                        "ServeMux path cleaning / escapes and the /prometheus text are library code (status and content class only)",
                         "net/http framing, MaxBytesReader and the AMP armor are library code: monitored (complete response, connection reusable, server alive), not modelled"]
     ctx.trusted.append("harness/overlay/broker/zz_verif_http_test.go (raw TCP client, real net/http server with the routes of main())")
+    ctx.trusted.append("lib/checks/c14live.py (python http.client against the broker binary started from main()); harness/overlay/broker/zz_verif_soak_test.go")
     cases = gen(ctx)
     cases.sort(key=lambda c: 0 if c[0] == "proxy-rejected-pattern" else 1)   # stable: the rejected polls go first
     lines = [c[1] for c in cases]
@@ -138,12 +585,36 @@ def run(ctx):
                       dict(label="http", stderr=err[-3000:]))
         return
     mlines, minfo = [], []
+    slines, sinfo = [], []       # refined model: serve lines
+    hist = {}                    # history number -> variant -> (events, results)
     for (kind, line, info), o in zip(cases, out):
         ctx.count(line[:400], kind=kind)
-        d = brokerlib.parse_obs(o)
+        op = line.split(" ")[1]
         rep = dict(label="http", kind=kind, case=line[:6000], impl=o[:1500])
-        if o.startswith("!"):
+        if o.split(" srv=")[0].startswith("!"):
             ctx.violation("request-" + o.split(" ")[0].strip("!"), "request made the driver fail: " + o[:200], rep)
+            continue
+        if op == "debugview":
+            slines.append(line)
+            sinfo.append((kind, line, o, info))
+            continue
+        if op == "hdrget":
+            slines.append(line)
+            sinfo.append((kind, line, o, info))
+            continue
+        if op == "seq":
+            res = o.split(" srv=")[0].split(";")
+            evs = info["events"]
+            if len(res) != len(evs):
+                ctx.not_shown("history driver returned %d results for %d events" % (len(res), len(evs)))
+                continue
+            hist.setdefault(info["hist"], {})[info["variant"]] = (evs, res, line)
+            continue
+        d = brokerlib.parse_obs(o)
+        if op == "direct":
+            ipc = d.get("ipc") if d.get("ipc", "-") not in ("-", "blocked") else "other"
+            slines.append(serve_line(info["via"], info["method"], info["path"], [], info["body"], ipc, d.get("resp", "x"), d.get("dec", "none"), metrics=info["metrics"]))
+            sinfo.append((kind, line, o, info))
             continue
         if d.get("srv") != "alive":
             ctx.violation("server-dead", "broker stopped answering after the request batch", rep)
@@ -167,26 +638,23 @@ def run(ctx):
                 d.get("ipc") if d.get("ipc", "-") != "-" else "other", d.get("resp", "x"), d.get("dec", "none"), info.get("pathdec", 1))
             mlines.append(ml)
             minfo.append((kind, line, o, d, info))
-    if mlines:
-        mout = vlib.run_model(mlines)
-        for (kind, line, o, d, info), ml, mo in zip(minfo, mlines, mout):
-            md = brokerlib.parse_obs(mo)
-            st = d.get("status")
-            same = (md.get("status") == st)
-            # bodies are compared where the handler's body is a function of the IPC response
-            if same and info.get("ep") in ("client", "proxy", "answer") and st == "200":
-                same = (md.get("body") == d.get("body")) or len(d.get("body", "")) >= 8192
-            if mo == "panic" or not same:
-                rep = dict(label="http", kind=kind, case=line[:6000], impl=o[:1500], model=mo[:600])
-                if info.get("legacy") and st != md.get("status"):
-                    ctx.violation("legacy-not-equivalent", "legacy request answered %s but its versioned equivalent maps to %s [%s]" % (st, md.get("status"), kind), rep)
-                else:
-                    ctx.not_shown("correspondence http: handler model and implementation disagree on %s: impl=%s model=%s" % (kind, o[:200], mo[:200]))
-        sample = [(l, m) for l, m in zip(mlines, mout) if len(l) < 500][:25]
-        for i in vlib.coq_crosscheck(sample):
-            ctx.not_shown("extraction cross-check differs on " + sample[i][0][:300])
-        ctx.extra["vm_compute_crosschecked"] = len(sample)
-        ctx.extra["handler_predictions"] = len(mlines)
+        # the refined model: the whole request (method, path, header lines, body) through routes and handlers
+        m = info.get("rq")
+        if m is not None and d.get("ipc") != "blocked":
+            ipc = d.get("ipc") if d.get("ipc", "-") != "-" else "other"
+            slines.append(serve_line("mux", m["method"], m["path"].split("?")[0], m["hdrs"], m["body"], ipc, d.get("resp", "x"), d.get("dec", "none")))
+            sinfo.append((kind, line, o, dict(info, op="req", have_ipc=(d.get("ipc", "-") != "-"))))
+    # histories: model lines for the requests whose response is a function of the view alone
+    for k, variants in sorted(hist.items()):
+        for variant, (evs, res, line) in sorted(variants.items()):
+            for e, r in zip(evs, res):
+                if e["ev"].startswith("R:") and e["cls"] in ("probe", "noipc") and r != "R=noresponse":
+                    m = e["rq"]
+                    if clean_path(m["path"]):
+                        slines.append(serve_line("mux", m["method"], m["path"], m["hdrs"], m["body"], snow=[(v[1].encode(), v[2].encode()) for v in e["view"]]))
+                        sinfo.append(("history-" + variant, line, r, dict(op="seqreq", rq=m)))
+    refined_sample = eval_refined(ctx, slines, sinfo)
+    eval_histories(ctx, hist)
     # legacy == versioned through real matches, timeouts and answers: the scenario driver with client modes l / v / a
     scens = [s for s in brokerlib.scenarios(ctx.rng, ctx.tier) if s.kind in ("match-answer", "client-timeout-late-answer", "no-proxies", "incompatible-pool", "early-answer-then-match")]
     # explicit legacy / versioned / AMP twins whose answers contain characters a careless legacy path could mangle
@@ -211,8 +679,18 @@ def run(ctx):
 
 def replay(ctx, doc):
     exe = vlib.go_test_build("./broker", name="broker.test")
-    env = dict(os.environ, VERIF_DRIVER="brokerhttp")
+    os.makedirs(vlib.TMP, exist_ok=True)
+    env = dict(os.environ, VERIF_DRIVER="brokerhttp", VERIF_TMP_DIR=vlib.TMP)
     bad = 0
+    labels = set(v["replay"].get("label") for v in doc.get("violations", []))
+    if "live-binary" in labels:
+        viol, notshown, stats = c14live.run_binary(vlib.go_build("./broker", name="broker"), os.path.join(vlib.GOB, "c14live-%d" % os.getpid()))
+        print("broker binary over TCP again: %d violations %s %s" % (len(viol), [(k, w[:160]) for k, w, _ in viol[:4]], notshown[:2]))
+        bad += len(viol)
+    if "soak" in labels:
+        viol, notshown, stats = c14live.run_soak(exe, os.path.join(vlib.GOB, "c14soak-%d" % os.getpid()), 5000)
+        print("soak again: %d violations %s %s" % (len(viol), [(k, w[:200]) for k, w, _ in viol[:2]], stats))
+        bad += len(viol)
     for v in doc.get("violations", []):
         case = v["replay"].get("case")
         if not case or not case.startswith("brokerhttp"):
